@@ -1116,13 +1116,16 @@ class Index(IndexBase):
             self._update_array_cache()
 
         # do not need to pass on composabel here
-        return ufunc_axis_skipna(
+        result = ufunc_axis_skipna(
                 array=self._labels,
                 skipna=skipna,
                 axis=0,
                 ufunc=ufunc,
                 ufunc_skipna=ufunc_skipna
                 )
+        if result.__class__ is np.ndarray:
+            result.flags.writeable = False # cumulative functions return an array
+        return result
 
     # _ufunc_shape_skipna defined in IndexBase
 
